@@ -28,6 +28,15 @@ def main():
     sh(f"git -C /repo worktree remove --force {wt}")
     rc, out = sh(f"git -C /repo worktree add -q {wt} HEAD")
     meta = {"name": name, "property": prop, "checks_run": checks, "repo_head": sh("git -C /repo log --format=%h -1")[1].strip()}
+    old = {}
+    oldp = os.path.join(VERIF, "seeded", name, "meta.json")
+    if os.path.exists(oldp):
+        old = json.load(open(oldp))
+    if skip_tests and "tests" in old:
+        meta["tests"] = old["tests"]
+    if old.get("checks"):
+        meta["earlier_runs"] = old.get("earlier_runs", []) + [{"repo_head": old.get("repo_head"), "detected_by": old.get("detected_by"),
+                                                              "checks": {c: {"exit": r["exit"], "violations": r["violations"]} for c, r in old["checks"].items()}}]
     try:
         shutil.copy(demo, os.path.join(wt, "seed_demo.py"))
         rc0, out0 = sh("timeout 600 /venv/bin/python seed_demo.py", cwd=wt)
@@ -44,7 +53,7 @@ def main():
             m = re.search(r"(\d+) passed", out)
             meta["tests"] = {"passed": int(m.group(1)) if m else None, "summary": out.strip().splitlines()[-1] if out.strip() else "",
                              "wall_s": round(time.time() - t0)}
-        meta["confirmed"] = bool(rc0 == 0 and rc1 != 0 and meta["patch_applies"] and (skip_tests or (meta["tests"]["passed"] or 0) >= 134))
+        meta["confirmed"] = bool(rc0 == 0 and rc1 != 0 and meta["patch_applies"] and ((meta.get("tests", {}).get("passed") or 0) >= 134))
         os.remove(os.path.join(wt, "seed_demo.py"))
         res = {}
         env = dict(os.environ)
